@@ -317,74 +317,27 @@ Proof.
   destruct (has_children s (a :: k')); simpl; [apply sub_store_refl|apply remove_sub].
 Qed.
 
-(* deleting something that is not a file leaves all objects alone *)
-Lemma grpc_delete_nonfile : forall s d, (forall f, find s d <> Some (File f)) ->
-  forall q, obj_at (fst (grpc_delete s d)) q = obj_at s q.
-Proof.
-  intros s d H q. destruct d as [|a d']; [reflexivity|].
-  rewrite grpc_delete_obj by discriminate.
-  destruct (path_eqb q (a :: d')) eqn:E; auto.
-  apply path_eqb_eq in E. subst. unfold obj_at.
-  destruct (find s (a :: d')) as [[|f]|] eqn:Ef; auto. exfalso. apply (H f). reflexivity.
-Qed.
-
-Lemma purge_up_spec : forall fuel s d, no_file_on s d ->
+(* the purge only removes empty directories: objects are untouched, whatever the store *)
+Lemma purge_up_spec : forall fuel s d,
   sub_store (purge_up fuel s d) s /\ forall q, obj_at (purge_up fuel s d) q = obj_at s q.
 Proof.
-  induction fuel as [|fuel IH]; intros s d Hn.
+  induction fuel as [|fuel IH]; intros s d.
   - cbn [purge_up]. split; [apply sub_store_refl|reflexivity].
   - destruct d as [|a d']; [cbn [purge_up]; split; [apply sub_store_refl|reflexivity]|].
     cbn [purge_up]. remember (a :: d') as d eqn:Ed.
-    pose proof (grpc_delete_sub s d) as Hsub.
-    pose proof (grpc_delete_nonfile s d (fun f => Hn d f (is_prefix_refl d))) as Hobj.
-    destruct (grpc_delete s d) as [s' ok] eqn:Eg. simpl in Hsub, Hobj.
-    destruct ok.
-    + assert (Hn' : no_file_on s' (parent d)).
-      { intros q f Hq Hf. apply (Hn q f).
-        - apply is_prefix_removelast. exact Hq.
-        - apply Hsub. exact Hf. }
-      destruct (IH s' (parent d) Hn') as [I1 I2]. split.
-      * eapply sub_store_trans; eauto.
-      * intros q. rewrite I2. apply Hobj.
-    + split; auto.
+    destruct (find s d) as [[|f]|] eqn:Ef; try (split; [apply sub_store_refl|reflexivity]).
+    destruct (has_children s d); [split; [apply sub_store_refl|reflexivity]|].
+    destruct (IH (remove s d) (parent d)) as [I1 I2]. split.
+    + eapply sub_store_trans; [exact I1|apply remove_sub].
+    + intros q. rewrite I2, obj_at_remove. destruct (path_eqb q d) eqn:E; auto.
+      apply path_eqb_eq in E. subst q. unfold obj_at. rewrite Ef. reflexivity.
 Qed.
 
-Lemma insert_by_len_in : forall d l x, In x (insert_by_len d l) -> x = d \/ In x l.
-Proof.
-  intros d. induction l as [|y l IH]; intros x H; simpl in *.
-  - destruct H as [H|[]]; auto.
-  - destruct (Nat.leb (plen y) (plen d)); simpl in H.
-    + destruct H as [H|H]; auto.
-    + destruct H as [H|H]; auto. destruct (IH x H); auto.
-Qed.
-
-Lemma sort_longest_first_in : forall l x, In x (sort_longest_first l) -> In x l.
-Proof.
-  induction l as [|d l IH]; intros x H; simpl in *; auto.
-  destruct (insert_by_len_in _ _ _ H); auto.
-Qed.
-
-(* no file sits at a proper ancestor of one of the batch keys *)
-Definition clean_above (s : store) (ks : list path) : Prop :=
-  forall k q f, In k ks -> is_proper_prefix q k = true -> find s q <> Some (File f).
-
-Lemma clean_above_sub : forall s1 s ks, sub_store s1 s -> clean_above s ks -> clean_above s1 ks.
-Proof. intros s1 s ks Hs Hc k q f Hk Hq Hf. apply (Hc k q f Hk Hq). apply Hs. exact Hf. Qed.
-
-Lemma purge_fold_spec : forall ks dirs s,
-  (forall d, In d dirs -> exists k, In k ks /\ k <> [] /\ d = parent k) ->
-  clean_above s ks ->
+Lemma purge_fold_spec : forall dirs s,
   forall q, obj_at (fold_left (fun s0 d => purge_up (S (length d)) s0 d) dirs s) q = obj_at s q.
 Proof.
-  intros ks. induction dirs as [|d dirs IH]; intros s Hd Hc q; simpl; auto.
-  destruct (Hd d (or_introl eq_refl)) as [k [Hk [Hk0 Edk]]].
-  assert (Hn : no_file_on s d).
-  { intros x f Hx. apply (Hc k x f Hk). subst d. apply prefix_of_parent; auto. }
-  destruct (purge_up_spec (S (length d)) s d Hn) as [P1 P2].
-  rewrite IH.
-  - apply P2.
-  - intros d' Hd'. apply Hd. right. exact Hd'.
-  - eapply clean_above_sub; eauto.
+  induction dirs as [|d dirs IH]; intros s q; cbn [fold_left]; auto.
+  rewrite IH. apply (purge_up_spec (S (length d)) s d).
 Qed.
 
 Definition batch_step (acc : store * list path) (k : path) : store * list path :=
@@ -396,60 +349,29 @@ Lemma batch_fold_spec : forall ks s ds,
   (forall k, In k ks -> k <> []) ->
   let r := fold_left batch_step ks (s, ds) in
   sub_store (fst r) s /\
-  (forall q, obj_at (fst r) q = if existsb (path_eqb q) ks then None else obj_at s q) /\
-  (forall d, In d (snd r) -> In d ds \/ exists k, In k ks /\ d = parent k).
+  (forall q, obj_at (fst r) q = if existsb (path_eqb q) ks then None else obj_at s q).
 Proof.
   induction ks as [|k ks IH]; intros s ds Hne; simpl.
-  - split; [apply sub_store_refl|]. split; auto.
+  - split; [apply sub_store_refl|auto].
   - pose proof (grpc_delete_sub s k) as Hsub.
     pose proof (fun q => grpc_delete_obj s k q (Hne k (or_introl eq_refl))) as Hobj.
     destruct (grpc_delete s k) as [s' ok] eqn:Eg. simpl in Hsub, Hobj.
-    destruct (IH s' (if ok then parent k :: ds else ds) (fun x Hx => Hne x (or_intror Hx))) as [I1 [I2 I3]].
-    split; [eapply sub_store_trans; eauto|]. split.
-    + intros q. rewrite I2. rewrite Hobj.
-      destruct (path_eqb q k); simpl; destruct (existsb (path_eqb q) ks); reflexivity.
-    + intros d Hd. destruct (I3 d Hd) as [H|[x [Hx Ex]]].
-      * destruct ok; auto. destruct H as [H|H]; auto. right. exists k. auto.
-      * right. exists x. auto.
+    destruct (IH s' (if ok then parent k :: ds else ds) (fun x Hx => Hne x (or_intror Hx))) as [I1 I2].
+    split; [eapply sub_store_trans; eauto|].
+    intros q. rewrite I2. rewrite Hobj.
+    destruct (path_eqb q k); simpl; destruct (existsb (path_eqb q) ks); reflexivity.
 Qed.
 
-Lemma trig_batch_false : forall s ks, trig_batch s ks = false ->
-  forall k q f, In k ks -> is_proper_prefix q k = true -> find s q = Some (File f) ->
-  existsb (path_eqb q) ks = true.
-Proof.
-  intros s ks H k q f Hk Hq Hf. apply find_in in Hf. unfold trig_batch in H.
-  destruct (existsb (path_eqb q) ks) eqn:E; auto. exfalso.
-  assert (existsb (fun k => existsb (fun kv => is_proper_prefix (fst kv) k && negb (is_dir (snd kv)) &&
-                                     negb (existsb (path_eqb (fst kv)) ks)) s) ks = true).
-  { apply existsb_exists. exists k. split; auto. apply existsb_exists. exists (q, File f). split; auto.
-    simpl. rewrite Hq, E. reflexivity. }
-  congruence.
-Qed.
-
-(* C28: a batch delete removes exactly the named keys, unless a named key lies below an
-   object that the batch does not name *)
-Theorem batch_delete_exact : forall s ks, (forall k, In k ks -> k <> []) -> trig_batch s ks = false ->
+(* C28, c28_delete_exact (batch): DeleteMultipleObjects — including the purge of emptied
+   directories — removes exactly the named keys, on every store *)
+Theorem batch_delete_exact : forall s ks, (forall k, In k ks -> k <> []) ->
   forall q, obj_at (batch_delete s ks) q = if existsb (path_eqb q) ks then None else obj_at s q.
 Proof.
-  intros s ks Hne T q. unfold batch_delete.
+  intros s ks Hne q. unfold batch_delete.
   change (fold_left _ ks (s, [])) with (fold_left batch_step ks (s, [])).
-  destruct (batch_fold_spec ks s [] Hne) as [B1 [B2 B3]].
-  destruct (fold_left batch_step ks (s, [])) as [s1 dirs] eqn:E. simpl in B1, B2, B3.
-  rewrite (purge_fold_spec ks).
-  - apply B2.
-  - intros d Hd. apply sort_longest_first_in in Hd. destruct (B3 d Hd) as [[]|[k [Hk Ek]]].
-    exists k. auto.
-  - intros k x f Hk Hx Hf.
-    pose proof (trig_batch_false s ks T k x f Hk Hx (B1 _ _ Hf)) as Hin.
-    pose proof (B2 x) as Hobj. rewrite Hin in Hobj. unfold obj_at in Hobj. rewrite Hf in Hobj. discriminate.
-Qed.
-
-Theorem batch_delete_exact_refuted : exists s ks q, (forall k, In k ks -> k <> []) /\
-  existsb (path_eqb q) ks = false /\ obj_at s q <> None /\ obj_at (batch_delete s ks) q = None.
-Proof.
-  exists [(["a"%string], File {| f_inline := [1]; f_chunks := [] |})], [["a"%string; "b"%string]], ["a"%string].
-  split. { intros k [<-|[]]. discriminate. }
-  split; [reflexivity|]. split; [discriminate|reflexivity].
+  destruct (batch_fold_spec ks s [] Hne) as [B1 B2].
+  destruct (fold_left batch_step ks (s, [])) as [s1 dirs] eqn:E. simpl in B1, B2.
+  rewrite purge_fold_spec. apply B2.
 Qed.
 
 (* ---------- GET, whole and ranged ---------- *)
@@ -465,10 +387,10 @@ Proof.
   - right. destruct (store_body_chunks c b Hc Hi) as [S0 [S1 _]]. auto.
 Qed.
 
-Lemma completed_file_ok : forall c d,
-  (forall e, In e (listed c d) -> has_part_suffix (fst e) = true) -> file_ok (completed_file c d).
+Lemma completed_file_ok : forall d,
+  (forall e, In e (sort_by_number (listed d)) -> has_part_suffix (fst e) = true) -> file_ok (completed_file d).
 Proof.
-  intros c d H. right. split; [reflexivity|]. apply (complete_is_listing_concat c d H).
+  intros d H. right. split; [reflexivity|]. apply (complete_is_listing_concat d H).
 Qed.
 
 Lemma file_ok_size : forall f, file_ok f -> file_size f = blen (file_bytes f).
